@@ -13,6 +13,7 @@ RULE = ("seeded trees with content classes and same-length single-byte decoys at
 
 def main(tier, seed, cases=None):
     build.build_rel()
+    build.build_shim()
     n = cases or (600 if tier == "quick" else 12000)
     chk = common.Check("C01", "exploration", tier, seed, RULE,
                        ["byte comparison by Python", "transform models in fcv/gm.py equal the helper commands"])
